@@ -193,11 +193,11 @@ func buildRLPValue(typ string, s *src) any {
 }
 
 type txView struct {
-	Nonce, Gas     uint64
-	Price, Amount  *big.Int
-	To             *[20]byte
-	Payload        []byte
-	V, R, S        *big.Int
+	Nonce, Gas    uint64
+	Price, Amount *big.Int
+	To            *[20]byte
+	Payload       []byte
+	V, R, S       *big.Int
 }
 
 func viewIn(tx *etypes.Transaction) txView {
